@@ -10,14 +10,15 @@ st = m.stage()
 m.ensure_lock()
 ok, secs, out = m.build_base("scenarios::" + sys.argv[1])
 print("base build ok=%s %.0fs" % (ok, secs))
-m.clone_target("/verif/.build/dev/t-" + sys.argv[1])
+m.clone_target("/verif/.build/dev/t-" + sys.argv[1], m.base_of(sys.argv[1]))
 P
 flags="--no-memory-safety-checks --no-undefined-function-checks"
 pb=""
+feat=""; case "$h" in *_c2) feat="--features cap2";; esac
 for a in "$@"; do
   [ "$a" = full ] && flags=""
   [ "$a" = playback ] && pb="-Z concrete-playback --concrete-playback=print"
 done
-cd kani && ( ulimit -v $((20*1024*1024)); CARGO_NET_OFFLINE=true /usr/bin/time -v timeout ${CAP:-1500} cargo kani -Z stubbing -Z unstable-options --no-assertion-reach-checks $flags $pb --harness scenarios::$h --exact --target-dir /verif/.build/dev/t-$h ${CBMC_ARGS:+--cbmc-args $CBMC_ARGS} > /verif/.build/dev/$h.log 2>&1 )
+cd kani && ( ulimit -v $((20*1024*1024)); CARGO_NET_OFFLINE=true /usr/bin/time -v timeout ${CAP:-1500} cargo kani -Z stubbing -Z unstable-options --no-assertion-reach-checks $feat $flags $pb --harness scenarios::$h --exact --target-dir /verif/.build/dev/t-$h ${CBMC_ARGS:+--cbmc-args $CBMC_ARGS} > /verif/.build/dev/$h.log 2>&1 )
 rm -rf /verif/.build/dev/t-$h
 grep -E "^VERIFICATION|Verification Time|Failed Checks|\*\* |Maximum resident|Elapsed \(wall|^error" /verif/.build/dev/$h.log | head -20
